@@ -4,6 +4,14 @@ import json, os, subprocess
 V = os.path.dirname(os.path.dirname(os.path.abspath(__file__)))
 
 CHECKS = {
+ "C01": dict(cat="model_checking", ref="§6 C01",
+   technique="implementation-shaped TLA+ spec Upstream.tla exhaustively model-checked by TLC per flush policy; environment projections of TLC behaviours replayed on a real iscp upstream against the in-memory broker; recorded traces judged by TLC with the TLA+ property monitor MonC01",
+   text="Design level: every interleaving of 2-3 writes from two writers, explicit flushes, per-chunk sender goroutines, broker acks of any subset/order/duplicate with alias grants, the three-hop ack path and Close is enumerated; conservation, numbering, close totals, no-chunk-after-close, alias-after-grant, hook soundness hold in every state. Code level: scripts (TLC simulation of a larger configuration plus a gated family that forces the write order of concurrent chunk senders) run on the real library; the monitor checks the exactly-once multiset law per data id with order, sequence numbering, close totals, alias discipline, both hooks and chunk-after-close on every trace.",
+   note="Trusted: in-memory synchronous pipe transport and scripted broker of the harness; monitor premise (no fault, Close returned nil, writes returned before Close); payload sizes <= 12 bytes in quick tier."),
+ "C17": dict(cat="model_checking", ref="§6 C17",
+   technique="TLA+ transcription of Validate / CompressConfig / key-value, URL and QUIC codecs (NegotiationCore.tla); TLC enumerates the whole parameter grid and a finite set of corruption operators and checks RoundTrip / InvalidRejected / PeersAgree on the model; every grid point is pushed through the real functions and compared with the model by TLC (MonC17)",
+   text="Exhaustive over the stated finite grid (encoding x compression type x level x window bits x reconnect x transport id x group fields: 13312 points quick, 85800 thorough) plus 341-561 corruptions of the binary / key-value forms; model-vs-code equality of validity verdict, canonical form, every carrier round trip and the derived compression configuration for two different bases and both ends of a connection.",
+   note="Arbitrary key/value maps and arbitrary byte strings are not covered (fuzzing); level/window ranges are judged only when a compression type is named (weaker reading, Validate documents `case \"\": ok`)."),
  "C14": dict(cat="model_checking", ref="§6 C14",
    technique="TLA+ component spec (SegmentCore/Segment.tla) exhaustively model-checked by TLC; every complete path of the generator configurations replayed lock-step on the real SendTo/ReadBuffers; traces validated by TLC against the same Apply function (MonC14)",
    text="All operation sequences (send, deliver in every order, lose every subset, tick, expire, malformed datagram) of up to 3 in-flight messages are enumerated by TLC on the model and the invariants (exact-or-nothing, nothing-if-missing, forgotten-after-expiry, oversize refused) hold in every state; every complete path is replayed on the real code and each recorded step (emitted datagram headers/payload slices, value handed up, reassembly-table projection, crash) is compared by TLC with the model state.",
